@@ -6,13 +6,15 @@
 //!
 //!   c10 gen <seed> <tier>   -> the program lines of the Lean driver
 //!   c10 run                 -> writes every program read from stdin as `pub fn pK(PARAMS) { body }`
-//!                              (one per line) into ONE crate, runs `cargo check` there, maps each
+//!                              (one per line) into ONE package (a few crates side by side, so that cargo
+//!                              works in parallel), runs `cargo check` and `cargo build` there, maps each
 //!                              error back to its function by line number and prints
 //!                              `<case> => ok` or `<case> => err E0308 E0277 …`
 //!
 //! `ok` is only reported for programs that are part of a final, completely error-free
-//! `cargo check` pass (erroneous functions are removed and the rest is checked again), so an error
-//! in one function can never hide the verdict on another.
+//! `cargo check` pass AND a final error-free `cargo build` of the same crate (erroneous functions are
+//! removed and the rest is compiled again), so an error in one function can never hide the verdict on
+//! another, and rejections that only happen at monomorphisation (`const { assert!(..) }`, E0080) count.
 use std::collections::{BTreeMap, BTreeSet};
 use std::io::{self, BufRead, Write};
 use std::path::{Path, PathBuf};
@@ -61,11 +63,19 @@ fn unused_run(_t: &[&str]) -> String {
     unreachable!("c10 handles `run` itself (batch)")
 }
 
-/// One `cargo check`; returns for each source line the error codes reported there,
-/// and the raw error lines that could not be attributed to a line of src/lib.rs.
-fn cargo_check(dir: &Path, target: &Path) -> (BTreeMap<usize, BTreeSet<String>>, Vec<String>) {
+/// One `cargo check` (type checking) or `cargo build` (monomorphisation: evaluates the crate's
+/// `const { assert!(..) }` guards); returns for each source line of src/lib.rs the error codes reported
+/// there, and the raw error lines that could not be attributed to a line of src/lib.rs.
+///
+/// A post-monomorphisation error is located in the crate under test, followed by
+/// `src/lib.rs:L:C: note: the above error was encountered while instantiating …`: it is attributed to L.
+/// (rustc reports each failing instantiation once, at its first use; the caller removes the functions
+/// found and repeats until a pass is clean, so later uses are found in later rounds.)
+fn cargo(args: &[&str], dir: &Path, target: &Path) -> CargoOut {
+    let t0 = std::time::Instant::now();
     let out = Command::new("cargo")
-        .args(["check", "--offline", "--quiet", "--message-format=short", "--target-dir"])
+        .args(args)
+        .args(["--offline", "--quiet", "--message-format=short", "--target-dir"])
         .arg(target)
         .current_dir(dir)
         .env("CARGO_NET_OFFLINE", "true")
@@ -75,10 +85,36 @@ fn cargo_check(dir: &Path, target: &Path) -> (BTreeMap<usize, BTreeSet<String>>,
             eprintln!("cannot run cargo: {e}");
             std::process::exit(3)
         });
+    if std::env::var("C10_TIMING").is_ok() {
+        eprintln!("c10: cargo {args:?}: {:.1}s", t0.elapsed().as_secs_f32());
+    }
     let text = String::from_utf8_lossy(&out.stderr).to_string() + &String::from_utf8_lossy(&out.stdout);
-    let mut by_line: BTreeMap<usize, BTreeSet<String>> = BTreeMap::new();
-    let mut stray = Vec::new();
+    let mut res = CargoOut::default();
+    // an error located outside the generated sources, waiting for its "while instantiating" note
+    let mut pending: Option<String> = None;
+    let mut last_code = String::from("NOCODE");
+    // the generated crate's files are printed relative to its directory, dependencies absolute
+    let loc_of = |loc: &str| -> Option<(String, usize)> {
+        let mut parts = loc.split(':');
+        let file = parts.next().unwrap_or("");
+        let line = parts.next().and_then(|s| s.parse::<usize>().ok());
+        if file.starts_with("src/") { line.map(|n| (file.to_string(), n)) } else { None }
+    };
+    const NOTE: &str = ": note: the above error was encountered while instantiating";
     for l in text.lines() {
+        if let Some(pos) = l.find(NOTE) {
+            if let Some((file, n)) = loc_of(&l[..pos]) {
+                res.located.push((file, n, last_code.clone()));
+                pending = None;
+                // `fn retrofire_core::math::Matrix::<…>::transpose` -> "transpose"
+                let name = l[pos + NOTE.len()..].trim().trim_matches('`');
+                let name = name.rsplit("::").next().unwrap_or("").trim_matches(|c: char| !c.is_alphanumeric() && c != '_');
+                if !name.is_empty() {
+                    res.entries.insert(name.to_string());
+                }
+            }
+            continue;
+        }
         // src/lib.rs:17:224: error[E0308]: mismatched types
         let Some(pos) = l.find(": error") else { continue };
         let (loc, rest) = l.split_at(pos);
@@ -88,24 +124,59 @@ fn cargo_check(dir: &Path, target: &Path) -> (BTreeMap<usize, BTreeSet<String>>,
         } else {
             "NOCODE".to_string()
         };
-        let mut parts = loc.split(':');
-        let file = parts.next().unwrap_or("");
-        let line = parts.next().and_then(|s| s.parse::<usize>().ok());
-        match line {
-            Some(n) if file.ends_with("lib.rs") => {
-                by_line.entry(n).or_default().insert(code);
-            }
-            _ => {
+        if let Some(raw) = pending.take() {
+            res.stray.push(raw);
+        }
+        last_code = code.clone();
+        match loc_of(loc) {
+            Some((file, n)) => res.located.push((file, n, code)),
+            None => {
                 if !l.contains("could not compile") && !l.contains("aborting due to") {
-                    stray.push(l.to_string());
+                    pending = Some(l.to_string());
                 }
             }
         }
     }
-    if !out.status.success() && by_line.is_empty() {
-        stray.push(format!("cargo check failed without a located error:\n{text}"));
+    if let Some(raw) = pending.take() {
+        res.stray.push(raw);
     }
-    (by_line, stray)
+    if !out.status.success() && res.located.is_empty() && res.stray.is_empty() {
+        res.stray.push(format!("cargo {args:?} failed without a located error:\n{text}"));
+    }
+    res
+}
+
+#[derive(Default)]
+struct CargoOut {
+    /// (file relative to the generated crate, line, error code)
+    located: Vec<(String, usize, String)>,
+    /// names of the functions whose instantiation failed (post-monomorphisation errors)
+    entries: BTreeSet<String>,
+    /// error lines that could not be attributed to a generated source line
+    stray: Vec<String>,
+}
+
+fn fatal(what: &str, dir: &Path, lines: &[String]) -> ! {
+    eprintln!("c10: {what}; crate left in {dir:?}:");
+    for s in lines.iter().take(10) {
+        eprintln!("  {s}");
+    }
+    std::process::exit(3)
+}
+
+/// Does `body` call a function or method called `name`?
+fn calls(body: &str, name: &str) -> bool {
+    let pat = format!("{name}(");
+    let mut from = 0;
+    while let Some(p) = body[from..].find(&pat) {
+        let at = from + p;
+        let before = body[..at].chars().last();
+        if !before.map_or(false, |c| c.is_alphanumeric() || c == '_') {
+            return true;
+        }
+        from = at + 1;
+    }
+    false
 }
 
 fn run_batch() {
@@ -145,57 +216,189 @@ fn run_batch() {
     std::fs::create_dir_all(dir.join("src")).unwrap();
     let manifest = format!(
         "[package]\nname = \"corpus10\"\nversion = \"0.0.0\"\nedition = \"2021\"\n\n[workspace]\n\n[dependencies]\n\
-         re = {{ path = \"{}/core\", package = \"retrofire-core\", features = [\"std\"] }}\n",
+         re = {{ path = \"{}/core\", package = \"retrofire-core\", features = [\"std\"] }}\n\n\
+         [profile.dev]\nopt-level = 0\ndebug = 0\nincremental = false\ncodegen-units = 16\n",
         repo()
     );
     std::fs::write(dir.join("Cargo.toml"), manifest).unwrap();
     let _ = std::fs::copy(Path::new(&repo()).join("Cargo.lock"), dir.join("Cargo.lock"));
 
+    // every distinct body is compiled once (the corpus and the enumeration overlap)
+    let mut rep_of: BTreeMap<&str, usize> = BTreeMap::new();
+    let mut rep: Vec<usize> = (0..cases.len()).collect();
+    for i in 0..cases.len() {
+        if let Some(b) = &bodies[i] {
+            rep[i] = *rep_of.entry(b.as_str()).or_insert(i);
+        }
+    }
     let mut errs: Vec<BTreeSet<String>> = vec![BTreeSet::new(); cases.len()];
-    let mut active: Vec<usize> = (0..cases.len()).filter(|&i| bodies[i].is_some()).collect();
-    let mut clean = false;
-    for _round in 0..8 {
+    let mut active: Vec<usize> = (0..cases.len()).filter(|&i| bodies[i].is_some() && rep[i] == i).collect();
+    let write_lib = |active: &[usize]| -> usize {
         let mut src = String::new();
         for h in &header {
             src.push_str(h);
             src.push('\n');
         }
-        let first = header.len() + 1; // 1-based line of the first program
         for (k, &i) in active.iter().enumerate() {
             src.push_str(&format!("pub fn p{k}({params}) {{ {} }}\n", bodies[i].as_ref().unwrap()));
         }
         std::fs::write(dir.join("src/lib.rs"), &src).unwrap();
-        let (by_line, stray) = cargo_check(&dir, &target);
-        if !stray.is_empty() {
-            eprintln!("c10: errors outside the generated programs (prelude / toolchain problem); crate left in {dir:?}:");
-            for s in stray.iter().take(10) {
-                eprintln!("  {s}");
-            }
-            std::process::exit(3);
-        }
-        if by_line.is_empty() {
-            clean = true;
-            break;
+        header.len() + 1 // 1-based line of the first program
+    };
+    // Attribute the located errors of one pass over src/lib.rs to programs; returns the failing ones.
+    let attribute = |out: &CargoOut, active: &[usize], first: usize, errs: &mut Vec<BTreeSet<String>>, what: &str| {
+        if !out.stray.is_empty() {
+            fatal(&format!("{what}: errors outside the generated programs (prelude / toolchain problem)"), &dir, &out.stray);
         }
         let mut bad = BTreeSet::new();
-        for (line, codes) in by_line {
-            if line < first || line >= first + active.len() {
-                eprintln!("c10: error at line {line} outside the generated programs: {codes:?}");
-                std::process::exit(3);
+        for (file, line, code) in &out.located {
+            if file != "src/lib.rs" || *line < first || *line >= first + active.len() {
+                fatal(&format!("{what}: error outside the generated programs"), &dir, &[format!("{file}:{line}: {code}")]);
             }
             let i = active[line - first];
-            errs[i].extend(codes);
+            errs[i].insert(code.clone());
             bad.insert(i);
         }
-        active.retain(|i| !bad.contains(i));
+        bad
+    };
+
+    // phase 1: type checking, until a pass is clean.  The programs are spread over several binary crates
+    // (src/bin/cJ.rs, each: prelude + its share of the functions + an empty main) that cargo checks in
+    // parallel; every function is on its own line.
+    let mut clean = false;
+    for _round in 0..8 {
         if active.is_empty() {
             clean = true;
             break;
         }
+        write_lib(&[]);
+        let _ = std::fs::remove_dir_all(dir.join("src/bin"));
+        std::fs::create_dir_all(dir.join("src/bin")).unwrap();
+        let nchunks = ((active.len() + 699) / 700).clamp(1, 256);
+        let per = (active.len() + nchunks - 1) / nchunks;
+        let chunks: Vec<&[usize]> = active.chunks(per).collect();
+        for (j, ch) in chunks.iter().enumerate() {
+            let mut src = String::new();
+            for h in &header {
+                src.push_str(h);
+                src.push('\n');
+            }
+            for (k, &i) in ch.iter().enumerate() {
+                src.push_str(&format!("pub fn p{k}({params}) {{ {} }}\n", bodies[i].as_ref().unwrap()));
+            }
+            src.push_str("fn main() {}\n");
+            std::fs::write(dir.join(format!("src/bin/c{j}.rs")), src).unwrap();
+        }
+        let out = cargo(&["check", "--bins", "--keep-going"], &dir, &target);
+        if !out.stray.is_empty() {
+            fatal("cargo check: errors outside the generated programs (prelude / toolchain problem)", &dir, &out.stray);
+        }
+        let first = header.len() + 1;
+        let mut bad = BTreeSet::new();
+        for (file, line, code) in &out.located {
+            let j = file
+                .strip_prefix("src/bin/c")
+                .and_then(|f| f.strip_suffix(".rs"))
+                .and_then(|f| f.parse::<usize>().ok());
+            match j {
+                Some(j) if j < chunks.len() && *line >= first && *line < first + chunks[j].len() => {
+                    let i = chunks[j][line - first];
+                    errs[i].insert(code.clone());
+                    bad.insert(i);
+                }
+                _ => fatal("cargo check: error outside the generated programs", &dir, &[format!("{file}:{line}: {code}")]),
+            }
+        }
+        if bad.is_empty() {
+            clean = true;
+            break;
+        }
+        active.retain(|i| !bad.contains(i));
+    }
+    let _ = std::fs::remove_dir_all(dir.join("src/bin"));
+    if !clean {
+        fatal("cargo check: no error-free pass after 8 rounds", &dir, &[]);
+    }
+
+    // phase 2: a real build of what type-checks, so that the crate's post-monomorphisation
+    // `const { assert!(..) }` guards are evaluated as well.  rustc reports a failing instantiation only
+    // at its first use in a crate, so every program that calls a function whose instantiation failed is
+    // set aside and compiled as a crate of its own (src/bin/qK.rs) in phase 3.
+    let mut quarantine: Vec<usize> = Vec::new();
+    let mut clean = false;
+    for _round in 0..8 {
+        if active.is_empty() {
+            clean = true;
+            break;
+        }
+        let first = write_lib(&active);
+        let out = cargo(&["build", "--lib"], &dir, &target);
+        let mut bad = attribute(&out, &active, first, &mut errs, "cargo build");
+        if bad.is_empty() {
+            clean = true;
+            break;
+        }
+        for &i in &active {
+            if out.entries.iter().any(|n| calls(bodies[i].as_ref().unwrap(), n)) {
+                bad.insert(i);
+            }
+        }
+        for &i in &bad {
+            errs[i].clear(); // judged in phase 3
+            quarantine.push(i);
+        }
+        active.retain(|i| !bad.contains(i));
     }
     if !clean {
-        eprintln!("c10: no error-free pass after 8 rounds");
-        std::process::exit(3);
+        fatal("cargo build: no error-free pass after 8 rounds", &dir, &[]);
+    }
+
+    // phase 3: every quarantined program as its own binary crate
+    if !quarantine.is_empty() {
+        write_lib(&[]);
+        std::fs::create_dir_all(dir.join("src/bin")).unwrap();
+        for (k, &i) in quarantine.iter().enumerate() {
+            let mut src = String::new();
+            for h in &header {
+                src.push_str(h);
+                src.push('\n');
+            }
+            src.push_str(&format!("pub fn p({params}) {{ {} }}\n", bodies[i].as_ref().unwrap()));
+            src.push_str("fn main() { std::hint::black_box(p as usize); }\n");
+            std::fs::write(dir.join(format!("src/bin/q{k}.rs")), src).unwrap();
+        }
+        let out = cargo(&["build", "--bins", "--keep-going"], &dir, &target);
+        if !out.stray.is_empty() {
+            fatal("cargo build --bins: unattributed errors", &dir, &out.stray);
+        }
+        for (file, line, code) in &out.located {
+            let k = file
+                .strip_prefix("src/bin/q")
+                .and_then(|f| f.strip_suffix(".rs"))
+                .and_then(|f| f.parse::<usize>().ok());
+            match k {
+                Some(k) if k < quarantine.len() && *line == header.len() + 1 => {
+                    errs[quarantine[k]].insert(code.clone());
+                }
+                _ => fatal("cargo build --bins: error outside the generated programs", &dir, &[format!("{file}:{line}: {code}")]),
+            }
+        }
+        // the survivors must build cleanly together with nothing failing around them
+        let ok: Vec<usize> = quarantine.iter().copied().filter(|&i| errs[i].is_empty()).collect();
+        let _ = std::fs::remove_dir_all(dir.join("src/bin"));
+        if !ok.is_empty() {
+            let first = write_lib(&ok);
+            let out = cargo(&["build", "--lib"], &dir, &target);
+            let bad = attribute(&out, &ok, first, &mut errs, "cargo build (quarantine survivors)");
+            if !bad.is_empty() {
+                fatal("cargo build: a program built alone but not with the others", &dir, &[]);
+            }
+        }
+    }
+    for i in 0..cases.len() {
+        if rep[i] != i {
+            errs[i] = errs[rep[i]].clone();
+        }
     }
     for (i, c) in cases.iter().enumerate() {
         let res = if bodies[i].is_none() {
